@@ -166,7 +166,12 @@ def check_case(h, mspecs, carrier, calls, acc, space):
         return []
     ref = RefOvld(eff, StaticSem(h.classes))
     fn, log = build(h, real, carrier)
+    fresh_each = any(m.get("body") == "cnv" for m in mspecs)
     for args_n, kw_n in calls:
+        if fresh_each:
+            # a type tuple first seen through call_next behaves differently from a warmed one:
+            # every call of these programs gets a brand-new function
+            fn, log = build(h, real, carrier)
         args = tuple(h.instances[a] for a in args_n)
         kwargs = {k: h.instances[x] for k, x in kw_n.items()}
         rkind, rtrace = ref.run(args, kwargs)
